@@ -295,7 +295,7 @@ Lemma final_parent i : i < ns -> fs_type (st c i) = FFinal ->
   exists p, fs_parent (st c i) = Some p /\ p < ns /\ match fs_ancestors (st c i) with [0] => true | _ => false end = (p =? 0).
 Proof.
   intros Hi Et. destruct (st_parts cv c Hns Hnt Hok i Hi) as (_ & _ & _ & _ & P & Q).
-  rewrite Et in P. specialize (P eq_refl). unfold has_parent in P.
+  rewrite Et in P. specialize (P eq_refl). unfold bref_has_parent in P.
   destruct (fs_parent (st c i)) as [p|] eqn:Ep; [|discriminate]. exists p. split; [reflexivity|]. split.
   - eapply (par_lt cv c Hns Hnt Hok); eassumption.
   - now apply Q.
